@@ -1,8 +1,9 @@
 (* mode_langc06.ml — nsmodel mode for the C06 static checkers (trusted glue):
-     nsmodel langc06 <in> <out>   reads the `ast` lines the harness printed (same format as
+     nsmodel langc06 <in> <out>   reads the `ast`/`plan` lines the harness printed (same format as
                                   mode_lang.ml) and prints, per case,
-                                    wf <0|1> loopctl <0|1> nfun <n>
-                                  from WfStatic.wf_static / loopctl_static / ftable.
+                                    wf <0|1> loopctl <0|1> nfun <n> scoped_n <0|1> scoped_p <0|1>
+                                  from WfStatic.wf_static / loopctl_static / ftable and
+                                  WfScoped.wf_scoped without a plan and with the dumped plan.
    The helpers and the AST reader are a copy of mode_lang.ml's (each Model*.ml has its own
    copy of the extracted datatypes). *)
 open ModelLangC06
@@ -114,17 +115,35 @@ let parse_program (toks : string array) : stmt list =
 
 let b01 b = if b then "1" else "0"
 
+let parse_plan (rest : string list) : (z list * z list) option =
+  match rest with
+  | ["none"] -> None
+  | "S" :: r ->
+      let rec split acc = function
+        | "F" :: fs -> (List.rev acc, fs)
+        | x :: r -> split (x :: acc) r
+        | [] -> (List.rev acc, []) in
+      let (ss, fs) = split [] r in
+      Some (List.map (fun t -> z_of_int (int_of_string t)) ss,
+            List.map (fun t -> z_of_int (int_of_string t)) fs)
+  | _ -> None
+
 let langc06_mode inp outp =
   let oc = open_out outp in
+  let prog = ref None in
   List.iter (fun line ->
     match words line with
-    | "case" :: id :: _ -> Printf.fprintf oc "case %s\n" id
+    | "case" :: id :: _ -> Printf.fprintf oc "case %s\n" id; prog := None
     | "ast" :: toks ->
-        (try
-           let p = parse_program (Array.of_list toks) in
-           Printf.fprintf oc "wf %s loopctl %s nfun %d\n" (b01 (wf_static p)) (b01 (loopctl_static p))
-             (List.length (ftable p))
-         with Bad m -> Printf.fprintf oc "badast %s\n" m)
+        (try prog := Some (parse_program (Array.of_list toks))
+         with Bad m -> Printf.fprintf oc "badast %s\n" m; prog := None)
+    | "plan" :: rest ->
+        (match !prog with
+         | None -> ()
+         | Some p ->
+             Printf.fprintf oc "wf %s loopctl %s nfun %d scoped_n %s scoped_p %s\n"
+               (b01 (wf_static p)) (b01 (loopctl_static p)) (List.length (ftable p))
+               (b01 (wf_scoped None p)) (b01 (wf_scoped (parse_plan rest) p)))
     | "end" :: id :: _ -> Printf.fprintf oc "end %s\n" id
     | _ -> ()) (read_lines inp);
   close_out oc
